@@ -195,3 +195,32 @@ P.fn(FX + 'IndexUtils.groups', name='IndexUtils.groups/partition', params=dict(s
          at_end=['len(batches[%s - 1]) >= 1' % NB, 'HEADING(self[j - 1].sortkey) == current', 'current == unopt(batches[%s - 1].title)' % NB,
                  'batches[%s - 1][len(batches[%s - 1]) - 1] is self[j - 1]' % (NB, NB)],
          modifies=[Mod('list:IndexGroup', 'fresh(r)'), Mod('list:Item', 'fresh(r)'), Mod('title', 'fresh(r)'), Mod('id', 'fresh(r)')])})
+
+# ---------------------------------------------------------------------------------------------- Index.totallen (what splitColumns balances by)
+# the number of entries an entry generates = the number of nodes of its subtree: itself plus, recursively, its sub-entries
+P.cls('INode', elem='INode', fields=dict(depth='int'))
+
+
+@P.spec(fuel=1, heap=True)
+def SUBTOT(n: 'INode', j: 'int') -> 'int':
+    """nodes of the subtrees of the first j sub-entries of n"""
+    if j <= 0:
+        return 0
+    return SUBTOT(n, j - 1) + TOT(n[j - 1])
+
+
+@P.spec(fuel=1, heap=True)
+def TOT(n: 'INode') -> 'int':
+    return 1 + SUBTOT(n, len(n))
+
+
+P.fn(FX + 'IndexUtils.Index.totallen', name='Index.totallen', params=dict(self='INode'), returns='int', kind='property',
+     # the entries form a tree: a sub-entry is strictly deeper than its parent (ghost depth bounded by `bound`): termination
+     requires=['all(not isnone(self[i]) for i in range(len(self)))', 'self.depth >= 0',
+               'all(implies(allocated(x), all(not isnone(x[i]) and x[i].depth < x.depth and x[i].depth >= 0 for i in range(len(x)))) for x in Refs("INode"))'],
+     ensures=['result == TOT(self)', 'result >= 1'],
+     decreases='self.depth', modifies=[],
+     calls={'item.totallen': 'Index.totallen'},
+     loops={0: Loop(index='i', inv=['i <= len(self)', 'total == 1 + SUBTOT(self, i)', 'total >= 1'],
+                    at_end=['unfold(SUBTOT(self, i)) == SUBTOT(self, i)'])},
+     at_exit=['unfold(TOT(self)) == TOT(self)'])
